@@ -24,6 +24,17 @@ def aset {β : Type} (k : String) (v : β) (l : List (String × β)) : List (Str
   | some _ => areplace k v l
   | none => l ++ [(k, v)]
 
+/-- Python's `str.split(c)` on the character list (structural, so that it reduces in the kernel) -/
+def splitAux (c : Char) : List Char → List Char → List (List Char)
+  | [], acc => [acc.reverse]
+  | x :: xs, acc => if x = c then acc.reverse :: splitAux c xs [] else splitAux c xs (x :: acc)
+
+/-- `s.split('/')` -/
+def splitSlash (s : String) : List String := (splitAux '/' s.toList []).map String.ofList
+
+/-- `'/' in s` -/
+def hasSlash (s : String) : Bool := s.toList.contains '/'
+
 def akeys {β : Type} (l : List (String × β)) : List String := l.map (·.1)
 
 end EmdModel
